@@ -121,6 +121,24 @@ def analyse(ix, sid):
                 (mid, 'running' if enter is not None else 'queued for a window slot'))
         elif reqs[0]['t'] != tau:
             bad('cancelled-at-wrong-instant', "%s is cancelled at t=%s" % (mid, reqs[0]['t']))
+        if m['kind'] == 'sched' and reqs and ex is not None and ex['how'] == 'cancelled':
+            # a nested scheduler that is cancelled is over when its own jobs (and the
+            # shutdown handlers it was running, if it was in that phase) are: it has nothing
+            # else to wait for ("ends as soon as those cancellations complete")
+            inner = [reqs[0]['t']]
+            for mm in m['members']:
+                e2 = ix.exit(mm['id'])
+                if e2 is not None and e2['seq'] < ex['seq']:
+                    inner.append(e2['t'])
+                begun = [ev for ev in ix.evs(mm['id'], 'sd-enter') if ev['seq'] < reqs[0]['seq']]
+                if begun:       # handlers that were running when the cancellation came
+                    inner.extend(ev['t'] for ev in ix.evs(mm['id'], 'sd-exit')
+                                 if begun[0]['seq'] < ev['seq'] < ex['seq'])
+            if ex['t'] != max(inner):
+                bad('cancelled-nested-scheduler-lingers',
+                    "nested scheduler %s, cancelled at t=%s, is over at t=%s only whereas the "
+                    "last of its own jobs / handlers was over at t=%s"
+                    % (mid, reqs[0]['t'], ex['t'], max(inner)))
     t_tidy = max(exits_t)
 
     # ---- (iii) the shutdown phase begins when the last direct member is over
